@@ -16,7 +16,18 @@ Inductive case :=
 | CConst (id obs : Z)                                    (* 15.8.1 value properties *)
 | CIsNum (which : Z) (args : list jv) (obs : Z)          (* 0 isNaN, 1 isFinite; obs 0/1 *)
 | CStr (fns : list Z) (input : list Z) (obs : Z * list Z)
-| CThrow (fn : Z) (vals : list Z) (k kind : Z) (obs : Z * Z).
+| CThrow (fn : Z) (vals : list Z) (k kind : Z) (obs : Z * Z)
+| CStrId (fns : list Z) (input : list Z) (ctx : Z) (obs : Z * Z)
+| CThrowId (fn : Z) (vals : list Z) (k kind ctx : Z) (obs : Z * Z).
+  (* class IDENTITY of the error a call raises, in runtime ctx (0 a fresh runtime, 1 a Copy() of a
+     runtime that has raised such errors, 2 a copy of that copy, 3 a copy whose original had its
+     error prototypes tampered with afterwards).  obs = (id, ok): id = 0 nothing thrown; 1..7 the
+     thrown value e satisfies, for the RUNNING runtime's own constructor C of that class (1 Error
+     2 EvalError 3 RangeError 4 ReferenceError 5 SyntaxError 6 TypeError 7 URIError), all of
+     e instanceof C, Object.getPrototypeOf(e) === C.prototype, e.constructor === C; 8 thrown but
+     no constructor of the running runtime matches.  ok = 1 iff e.name is the class name,
+     e instanceof Error, [[Class]] is "Error" and nothing of the tamper is visible.  15.11.7:
+     a native error is an instance of the NativeError constructor of the current global object. *)
   (* fns applied left to right: 0 encodeURI 1 encodeURIComponent 2 decodeURI
      3 decodeURIComponent 4 escape 5 unescape; obs = (error class, result units) *)
 
@@ -119,6 +130,12 @@ Definition verdict (c : case) : Z * Z :=
       end
   | CStr fns input obs =>
       judge res_eqb obs (chain apply_model fns input) (chain apply_spec fns input) (chain_class fns input)
+  | CStrId fns input _ obs =>
+      judge zz_eqb obs (fst (chain apply_model fns input), 1) (fst (chain apply_spec fns input), 1)
+            (chain_class fns input)
+  | CThrowId fn vals k kind _ obs =>
+      judge zz_eqb obs (fst (throw_expect fn k kind (conv_model fn vals)), 1)
+            (fst (throw_expect fn k kind (conv_spec fn vals)), 1) 10
   | CThrow fn vals k kind obs =>
       judge zz_eqb obs (throw_expect fn k kind (conv_model fn vals)) (throw_expect fn k kind (conv_spec fn vals)) 10
   end.
